@@ -342,14 +342,24 @@ def random_history(rng, maxcmds=12, gc_heavy=False, shape=None):
                 cmds.append("ki %d" % o)
                 # continue with a fresh partner
                 if len(specs) < 5 and rng.random() < 0.8:
-                    specs = list(specs) + [specs[0] if rng.random() < 0.8 else
+                    specs = list(specs) + [specs[o] if rng.random() < 0.8 else
                                            tuple(rng.choice(KINDS) for _ in range(4))]
                     alive.append(len(specs) - 1)
                     if rng.random() < 0.8 and len(cmds) < ncmd:
-                        src = rng.choice([a for a in alive if a != len(specs) - 1])
-                        n = pick_name()
-                        links.append((src, n, len(specs) - 1, n))
-                        cmds.append("li %d %s %d %s %d" % (src, n, len(specs) - 1, n, 1 if rng.random() < 0.8 else 0))
+                        fresh = len(specs) - 1
+                        # mostly: the survivor's link to the dead partner again, same trait and alias, at once
+                        # (a stale table entry keyed by the dead partner's id() would be taken for the new one)
+                        old = [(a, na, nb) for (a, na, b, nb) in links if b == o and a in alive and a != fresh] + \
+                              [(b, nb, na) for (a, na, b, nb) in links if a == o and b in alive and b != fresh]
+                        if old and rng.random() < 0.75:
+                            src, n, n2 = rng.choice(old)
+                        else:
+                            src = rng.choice([a for a in alive if a != fresh])
+                            n = n2 = pick_name()
+                        links.append((src, n, fresh, n2))
+                        if n in LISTS and n2 in LISTS:
+                            spread(src, n)
+                        cmds.append("li %d %s %d %s %d" % (src, n, fresh, n2, 1 if rng.random() < 0.8 else 0))
     return "sy|%s|%s" % (",".join(":".join(s) for s in specs), ";".join(cmds))
 
 
